@@ -33,6 +33,15 @@ def mask(s: str, root: str) -> str:
     if real != root:
         s = s.replace(real, "<ROOT>")
     # ids derived from text that contains the scratch path (make_id lower-cases and hyphenates it)
+    base = os.path.basename(root.rstrip(os.sep))
+    try:
+        from docutils.nodes import make_id
+        variants = {base, base.lower(), make_id(base)}
+    except Exception:  # pragma: no cover
+        variants = {base, base.lower()}
+    for v in sorted(variants, key=len, reverse=True):
+        if v:
+            s = s.replace(v, "mystverif-x")
     s = SCRATCH.sub("mystverif-x", s)
     return ADDR.sub(" at 0x?", s)
 
